@@ -191,6 +191,7 @@ class Impl:
         self.results = []
         self.problems = []               # (clause, detail)
         self.exprs = {}                  # k -> (Expr object, terms, const, snapshot): built once, reused
+        self.pools = {}                  # k -> (list of Term / Literal objects built once, the INTEGER data they were built from)
         self.reposts = 0                 # postings whose diagram root had already been encoded (as root or inner node)
 
     @staticmethod
@@ -204,6 +205,19 @@ class Impl:
             return obj, terms, const
         val = int(ref[2]) if ref[1] == "i" else float(ref[2])
         return val, [], int(val)
+
+    @staticmethod
+    def snap_obj(o):
+        return ("T", o.c, o.L.v, o.L.s) if isinstance(o, pb.Term) else ("L", o.v, o.s)
+
+    def check_pools(self, op) -> None:
+        for key, (objs, data, snaps) in self.pools.items():
+            for j, o in enumerate(objs):
+                now = self.snap_obj(o)
+                if now != snaps[j]:
+                    self.problems.append(("operand_mutated", {"after_op": [str(x) for x in op][:6], "pool": key, "entry": j,
+                                                              "built_from": list(data[j]), "before": repr(snaps[j]), "after": repr(now)}))
+                    snaps[j] = now      # report once
 
     def check_exprs(self, op) -> None:
         for key, (obj, _, _, sn) in self.exprs.items():
@@ -221,9 +235,13 @@ class Impl:
             e = mk_expr(op[3], op[4])
             self.exprs[op[2]] = (e, op[3], op[4], self.snap(e))
             return None
+        if k == "tp":       # a table of Term / Literal objects built ONCE from integer data (c = None: a bare Literal)
+            objs = [pb.Literal(v, bool(sg)) if c is None else pb.Term(pb.Literal(v, bool(sg)), c) for (c, v, sg) in op[3]]
+            self.pools[op[2]] = (objs, [tuple(t) for t in op[3]], [self.snap_obj(o) for o in objs])
+            return None
         m = self.mgrs[i]
         ncl = len(m.clauses)
-        cod_before = set(m.codified) if k in ("pb", "pbx") else ()
+        cod_before = set(m.codified) if k in ("pb", "pbx", "pbt") else ()
         res, con = "ok", None
         if k == "pbx":
             lo, lt, lc = self.side(op[4])
@@ -235,6 +253,11 @@ class Impl:
             wire = ("pb", i, op[2], o, lt, lc, rt, rc)
         elif k == "evx":
             wire = ("ev", i, self.exprs[op[2]][1], self.exprs[op[2]][2])
+        elif k == "pbt":
+            # the direct semantics and the model's posting come from the INTEGER data of the pool, never from the objects
+            objs, data, _ = self.pools[op[4]]
+            lt = [((1 if data[j][0] is None else data[j][0]), data[j][1], data[j][2]) for j in op[5]]
+            wire = ("pb", i, op[2], op[3], lt, 0, [], op[6])
         else:
             wire = None
         try:
@@ -246,6 +269,26 @@ class Impl:
                     q = lo >= ro if c == ">=" else lo <= ro if c == "<=" else lo > ro if c == ">" else lo < ro if c == "<" else lo == ro
                 m.pseudoboolencoding(q, bool(op[2]))
                 con = ("pb", "=" if wire[3] == "==" else wire[3], wire[4], wire[5], wire[6], wire[7])
+            elif k == "pbt":
+                objs = [self.pools[op[4]][0][j] for j in op[5]]
+                style = op[7]
+                if style == 1 and len(objs) >= 2 and isinstance(objs[0], (pb.Term, pb.Literal)):
+                    e = objs[0] + objs[1]                  # Term.__add__ / Literal.__add__
+                    for t in objs[2:]:
+                        e = e + t
+                elif style == 2 and objs:
+                    e = sum(objs)                           # 0 + term: __radd__
+                else:
+                    e = pb.Expr()
+                    for t in objs:
+                        e = e + t
+                if not isinstance(e, pb.Expr):
+                    e = pb.Expr() + e
+                c = op[3]
+                b = op[6]
+                q = e >= b if c == ">=" else e <= b if c == "<=" else e > b if c == ">" else e < b if c == "<" else e == b
+                m.pseudoboolencoding(q, bool(op[2]))
+                con = ("pb", wire[3], wire[4], wire[5], wire[6], wire[7])
             elif k == "evx":
                 x = m.evalexpr(self.exprs[op[2]][0])
                 res = "e:" + str(x)
@@ -297,7 +340,7 @@ class Impl:
             res = "err:" + type(e).__name__
             # refusals the property allows: heule with k < 3, an operator the ROBDD encoder does not implement
             # (anything but >= / <=) or an invalid operator string, solve() on a manager holding an unregistered literal
-            expected = (type(e) is Exception and ((k == "he" and op[2] < 3) or (k in ("pb", "pbx") and op[3] not in (">=", "<=")))) \
+            expected = (type(e) is Exception and ((k == "he" and op[2] < 3) or (k in ("pb", "pbx", "pbt") and op[3] not in (">=", "<=")))) \
                 or (type(e) is KeyError and k == "sv" and self.bad[i])
             if not expected:
                 self.problems.append(("operation-raised", {"op": [str(x) for x in op][:4], "raised": repr(e)[:200]}))
@@ -307,11 +350,12 @@ class Impl:
                 self.problems.append(("refused_leaves_no_clauses", {"op": list(op), "added": len(m.clauses) - ncl}))
         if con is not None:
             self.posted[i].append(con)
-            if k in ("pb", "pbx") and len(m.clauses) > ncl and len(m.clauses[-1]) == 1 and m.clauses[-1][0].v.startswith("robdd_"):
+            if k in ("pb", "pbx", "pbt") and len(m.clauses) > ncl and len(m.clauses[-1]) == 1 and m.clauses[-1][0].v.startswith("robdd_"):
                 if int(m.clauses[-1][0].v[6:]) in cod_before:
                     self.reposts += 1
         self.results.append(res)
-        if k in ("pbx", "evx"):
+        self.check_pools(op)
+        if k in ("pbx", "evx", "pbt"):
             self.check_exprs(op)
             return wire
         return op
@@ -621,6 +665,28 @@ def gen_history(rng, big: bool, long: bool = False):
                 ops.append(("ex", 0, nex, ts, 0 if empty else rng.choice([-3, -2, -1, -1, 1, 1, 2, 0])))
                 pools[j].append(nex)
                 nex += 1
+    tpools = [None] * nm                       # a table of Term / Literal objects per manager, built once (e.g. a penalty table)
+    pool_family = rng.random() < 0.3
+    if pool_family or rng.random() < 0.25:
+        for j in range(nm):
+            ents = []
+            for _ in range(rng.randint(3, 8)):
+                r = rng.random()
+                c = None if r < 0.1 else rng.choice([-1, -2, -2, -3, -5]) if r < 0.55 else rng.choice([1, 2, 3, 4, 6]) if r < 0.95 else 0
+                ents.append((c, rng.choice(names[j][:nus[j]]), rng.choice([1, 1, 0])))
+            ops.append(("tp", 0, nex, ents))
+            tpools[j] = (nex, len(ents), ents)
+            nex += 1
+
+    def gen_pbt(i):
+        key, n, ents = tpools[i]
+        idxs = [rng.randrange(n) for _ in range(rng.randint(1, min(5, n + 1)))]
+        cs = [1 if ents[j][0] is None else ents[j][0] for j in idxs]
+        lo, hi = sum(c for c in cs if c < 0), sum(c for c in cs if c > 0)
+        b = rng.randint(lo - 1, hi + 1) if rng.random() < 0.8 else (lo + hi) // 2
+        r = rng.random()
+        o = ">=" if r < 0.55 else "<=" if r < 0.9 else rng.choice([">", "<", "="])
+        return ("pbt", i, rng.random() < 0.4, o, key, idxs, b, rng.choice([0, 0, 1, 2]))
     earlier = []                               # `>=` / `<=` inequalities posted so far (any manager)
     family = rng.random() < 0.35               # histories built around diagrams and their sub-diagrams
     if family:
@@ -660,6 +726,9 @@ def gen_history(rng, big: bool, long: bool = False):
             ops.append(("he", i, rng.choice([3, 3, 3, 4, 5, 6, 2, 0, -1]), ls))
         elif r < 0.90:
             r2 = rng.random()
+            if tpools[i] and rng.random() < (0.7 if pool_family else 0.3):
+                ops.append(gen_pbt(i))
+                continue
             if pools[i] and r2 < 0.35:
                 ops.append(gen_pbx(rng, i, pools[i]))
                 continue
@@ -683,6 +752,10 @@ def gen_history(rng, big: bool, long: bool = False):
                     ops.append(("evx", i, rng.choice(pools[i])))
                 else:
                     ops.append(("ev", i, rand_terms(rng, ns, rng.randint(0, 4), 1, 5), rng.randint(-2, 3)))
+    if pool_family:      # the same table entries in several postings of one manager, whatever the random ops above did
+        for j in range(nm):
+            for _ in range(rng.randint(2, 4)):
+                ops.append(gen_pbt(j))
     for j in range(nm):
         if rng.random() < 0.5:
             ops.append(("sv", j, None))
@@ -714,6 +787,10 @@ def norm_op(o):
         o[2] = terms(o[2])
     elif k == "ex":
         o[3] = terms(o[3])
+    elif k == "tp":
+        o[3] = [(None if t[0] is None else int(t[0]), t[1], int(t[2])) for t in o[3]]
+    elif k == "pbt":
+        o[5] = [int(j) for j in o[5]]
     return tuple(o)
 
 
@@ -739,7 +816,7 @@ def run_history(ctx: Ctx, h, reqs, todo, stream="hist") -> None:
     reqs.append(f"P hist {nm} {len(wire)} " + " ".join(wire))
     todo.append(("hist", inp, impl, sz))
     kinds = [o[0] for o in h["ops"]]
-    ctx.case(stream, reqs[-1], nontrivial=any(k in ("pb", "pbx", "he", "qu") for k in kinds),
+    ctx.case(stream, reqs[-1], nontrivial=any(k in ("pb", "pbx", "pbt", "he", "qu") for k in kinds),
              sample={"request": reqs[-1][:300], "results": " ".join(im.results)})
     for k in kinds:
         ctx.count("op:" + k)
@@ -790,7 +867,7 @@ def gen_session(rng, nh: int, large: bool = False):
     for j in range(nh):
         h = gen_history(rng, big=(large and j == nh // 2))
         if rng.random() < 0.7:
-            first = next((t for t, o in enumerate(h["ops"]) if o[0] not in ("nv", "ex")), len(h["ops"]))
+            first = next((t for t, o in enumerate(h["ops"]) if o[0] not in ("nv", "ex", "tp")), len(h["ops"]))
             names0 = [o[2] for o in h["ops"][:first] if o[0] == "nv" and o[1] == 0]   # registered up front
             nvars = len(names0) if large else min(len(names0), 9)
             if nvars >= 3:
@@ -1100,6 +1177,10 @@ def run(ctx: Ctx) -> None:
                 "constructions) / solve + value + evalexpr; store reset to [0,1] at the start of each history so that node ids "
                 "are comparable; non-trivial = contains a pseudo-Boolean or at-most-one posting; distinct = distinct request; "
                 "isclause stream: the same constraint generator; 5% of the inequalities carry area-like coefficients 1000…10000; "
+                "pool family (30% of the histories, plus pool postings in another 25%): per manager a table of 3–8 Term / Literal OBJECTS "
+                "built once from integer data (coefficients −5…6, half of them negative, either polarity) whose entries are reused — the same "
+                "Python objects — in several posted inequalities (Expr() + t…, t + t…, sum([t…])); the truth table and the model's posting "
+                "come from the integer data, never from the objects after use, and the objects must keep their contents (operand_mutated); "
                 "12 long histories (60–150 operations over one never-reset store); session stream: 8 (thorough 80) sessions of 15–40 "
                 "histories each (fresh managers per history, 1–3 at a time) run one after the other on ONE store that is never reset — as a "
                 "process running rect.py does, one SATManager per solve call — with a rect-like objective (one signed weight of "
